@@ -729,3 +729,274 @@ impl Prop for C17 {
         out
     }
 }
+
+// ------------------------------------------------------------------------------------------------
+// concurrent lookups: a meta table is a shared (`Sync`) resource that systems of one stage use at
+// the same time, each for its own types
+
+#[derive(Clone, Debug, Serialize, Deserialize, PartialEq)]
+pub enum ConcOp {
+    /// `get` on a value the thread owns
+    Get { t: u8 },
+    GetMut { t: u8 },
+    /// `get` on the value stored in the world (through a shared fetch)
+    GetInWorld { t: u8 },
+    /// a full shared iteration
+    Iter,
+}
+
+#[derive(Clone, Debug, Serialize, Deserialize)]
+pub struct C17ConcCase {
+    pub registered: Vec<u8>,
+    pub present: Vec<u8>,
+    pub scripts: Vec<Vec<ConcOp>>,
+    pub reps: u16,
+}
+
+pub struct C17Conc;
+
+/// the thirteen implementing types that share one layout (a u64): a lookup that pairs a value with
+/// another type's vtable reports a wrong tag instead of reading foreign memory
+fn conc_type(k: usize) -> u8 {
+    if k == 0 {
+        2
+    } else {
+        (7 + k) as u8
+    }
+}
+
+impl Prop for C17Conc {
+    type Case = C17ConcCase;
+    fn name(&self) -> &'static str {
+        "c17-concurrent"
+    }
+    fn property(&self) -> &'static str {
+        "C17"
+    }
+    fn rule(&self) -> &'static str {
+        "one table (generated registration order with repeats over 13 same-layout implementing types) and one world (generated subset present) shared by 2..8 real threads; every thread repeats its own generated script of get / get_mut on values it owns, get on values in the world and full shared iterations 50..400 times, all threads released together; nothing mutates the table or the world, so every single result has the sequential oracle: get* is Some exactly for registered types and reports the value's own address and type tag, iteration yields the registered and present types once each in first-registration order with the stored addresses; non-trivial = >= 2 threads whose scripts look up different types; distinct = case hash"
+    }
+    fn stream_len(&self) -> usize {
+        120
+    }
+    fn journal(&self) -> bool {
+        true
+    }
+    fn max_shrink_iters(&self) -> u32 {
+        40
+    }
+    fn gen(&self, src: &mut Src) -> C17ConcCase {
+        let nreg = 1 + src.pick(16);
+        let registered = (0..nreg).map(|_| conc_type(src.pick(13))).collect();
+        let npres = src.pick(10);
+        let present = (0..npres).map(|_| conc_type(src.pick(13))).collect();
+        let nthreads = 2 + src.pick(7);
+        let mut scripts = vec![];
+        for _ in 0..nthreads {
+            let n = 1 + src.pick(6);
+            let mut s = vec![];
+            for _ in 0..n {
+                let t = conc_type(src.pick(13));
+                s.push(match src.pick(8) {
+                    0 | 1 | 2 => ConcOp::Get { t },
+                    3 | 4 => ConcOp::GetMut { t },
+                    5 | 6 => ConcOp::GetInWorld { t },
+                    _ => ConcOp::Iter,
+                });
+            }
+            scripts.push(s);
+        }
+        let reps = [50u16, 100, 200, 400][src.pick(4)];
+        C17ConcCase {
+            registered,
+            present,
+            scripts,
+            reps,
+        }
+    }
+    fn check(&self, case: &C17ConcCase, _lane: usize, st: &mut Stats) -> Result<(), Fail> {
+        use std::sync::atomic::{AtomicBool, AtomicUsize, Ordering::SeqCst};
+        use std::sync::Mutex;
+        let ok_t = |t: u8| t == 2 || (8..20).contains(&t);
+        let mut table: MetaTable<dyn Tag> = MetaTable::new();
+        let mut order: Vec<u8> = vec![];
+        for &t in case.registered.iter().filter(|t| ok_t(**t)) {
+            with_m!(t, T, table.register::<T>());
+            if !order.contains(&t) {
+                order.push(t);
+            }
+        }
+        let mut world = World::empty();
+        let mut present: Vec<u8> = vec![];
+        for &t in case.present.iter().filter(|t| ok_t(**t)) {
+            with_m!(t, T, world.insert(T::mk()));
+            if !present.contains(&t) {
+                present.push(t);
+            }
+        }
+        let expected_iter: Vec<(u32, usize)> = order
+            .iter()
+            .filter(|t| present.contains(t))
+            .map(|t| (tag_of(*t), stored_addr(&world, *t).unwrap_or(0)))
+            .collect();
+        let scripts: Vec<Vec<ConcOp>> = case
+            .scripts
+            .iter()
+            .take(8)
+            .map(|s| {
+                s.iter()
+                    .filter(|o| match o {
+                        ConcOp::Get { t } | ConcOp::GetMut { t } | ConcOp::GetInWorld { t } => ok_t(*t),
+                        ConcOp::Iter => true,
+                    })
+                    .cloned()
+                    .collect()
+            })
+            .collect();
+        let n = scripts.len();
+        if n == 0 {
+            return Ok(());
+        }
+        let reps = case.reps.clamp(1, 400) as usize;
+        let failure: Mutex<Option<String>> = Mutex::new(None);
+        let stop = AtomicBool::new(false);
+        let arrived = AtomicUsize::new(0);
+        let lookups = AtomicUsize::new(0);
+        let (table, world, order, expected_iter, present) = (&table, &world, &order, &expected_iter, &present);
+        std::thread::scope(|sc| {
+            for (ti, script) in scripts.iter().enumerate() {
+                let (failure, stop, arrived, lookups) = (&failure, &stop, &arrived, &lookups);
+                sc.spawn(move || {
+                    let r = catch_unwind(AssertUnwindSafe(|| {
+                        arrived.fetch_add(1, SeqCst);
+                        let t0 = std::time::Instant::now();
+                        while arrived.load(SeqCst) < n && t0.elapsed() < std::time::Duration::from_secs(5) {
+                            std::hint::spin_loop();
+                        }
+                        for rep in 0..reps {
+                            if stop.load(SeqCst) {
+                                return;
+                            }
+                            for (oi, op) in script.iter().enumerate() {
+                                let bad = |what: String| {
+                                    format!("thread {} repetition {} op {} {:?}: {}", ti, rep, oi, op, what)
+                                };
+                                let res: Result<(), String> = match op.clone() {
+                                    ConcOp::Get { t } | ConcOp::GetMut { t } => {
+                                        let mutable = matches!(op, ConcOp::GetMut { .. });
+                                        let got = with_m!(t, T, {
+                                            let mut b: Box<T> = Box::new(T::mk());
+                                            let own = &*b as *const T as usize;
+                                            if mutable {
+                                                let r: &mut dyn Resource = &mut *b;
+                                                table.get_mut(r).map(|o| (o.tag(), o.addr(), own))
+                                            } else {
+                                                let r: &dyn Resource = &*b;
+                                                table.get(r).map(|o| (o.tag(), o.addr(), own))
+                                            }
+                                        });
+                                        match (order.contains(&t), got) {
+                                            (false, None) => Ok(()),
+                                            (true, Some((tag, addr, own))) if tag == tag_of(t) && addr == own => Ok(()),
+                                            (reg, got) => Err(bad(format!(
+                                                "registered={}, result (tag, address, value's own address) = {:?}, expected tag {}",
+                                                reg, got, tag_of(t)
+                                            ))),
+                                        }
+                                    }
+                                    ConcOp::GetInWorld { t } => {
+                                        let got = with_m!(t, T, {
+                                            world.try_fetch::<T>().map(|g| {
+                                                let own = &*g as *const T as usize;
+                                                let r: &dyn Resource = &*g;
+                                                table.get(r).map(|o| (o.tag(), o.addr(), own))
+                                            })
+                                        });
+                                        match (present.contains(&t), order.contains(&t), got) {
+                                            (false, _, None) => Ok(()),
+                                            (true, false, Some(None)) => Ok(()),
+                                            (true, true, Some(Some((tag, addr, own)))) if tag == tag_of(t) && addr == own => Ok(()),
+                                            (p, reg, got) => Err(bad(format!(
+                                                "present={}, registered={}, result = {:?}, expected tag {}",
+                                                p, reg, got, tag_of(t)
+                                            ))),
+                                        }
+                                    }
+                                    ConcOp::Iter => {
+                                        let got: Vec<(u32, usize)> =
+                                            table.iter(world).map(|x| (x.tag(), x.addr())).collect();
+                                        if &got == expected_iter {
+                                            Ok(())
+                                        } else {
+                                            Err(bad(format!(
+                                                "iteration yielded (tag, address) {:?}, expected {:?}",
+                                                got, expected_iter
+                                            )))
+                                        }
+                                    }
+                                };
+                                lookups.fetch_add(1, SeqCst);
+                                if let Err(e) = res {
+                                    stop.store(true, SeqCst);
+                                    let mut f = failure.lock().unwrap();
+                                    if f.is_none() {
+                                        *f = Some(e);
+                                    }
+                                    return;
+                                }
+                            }
+                        }
+                    }));
+                    if let Err(p) = r {
+                        stop.store(true, SeqCst);
+                        let mut f = failure.lock().unwrap();
+                        if f.is_none() {
+                            *f = Some(format!("thread {} panicked: {}", ti, panic_msg(&p)));
+                        }
+                    }
+                });
+            }
+        });
+        st.eval((lookups.load(SeqCst) as u64).saturating_sub(1));
+        if let Some(e) = failure.into_inner().unwrap() {
+            return Err(Fail::new(format!(
+                "{} (table and world are shared read-only by {} threads)",
+                e, n
+            )));
+        }
+        let types_of = |s: &Vec<ConcOp>| -> std::collections::BTreeSet<u8> {
+            s.iter()
+                .filter_map(|o| match o {
+                    ConcOp::Get { t } | ConcOp::GetMut { t } | ConcOp::GetInWorld { t } => Some(*t),
+                    ConcOp::Iter => None,
+                })
+                .collect()
+        };
+        let sets: Vec<_> = scripts.iter().map(types_of).collect();
+        st.class_n("threads", n as u64);
+        if sets.iter().any(|a| sets.iter().any(|b| !a.is_empty() && !b.is_empty() && a != b)) {
+            st.nontrivial(case, || json!({"threads": n, "reps": reps, "registered": order}));
+        }
+        Ok(())
+    }
+    fn simplify(&self, case: &C17ConcCase) -> Vec<C17ConcCase> {
+        let mut out = vec![];
+        for i in (0..case.scripts.len()).rev() {
+            if case.scripts.len() > 2 {
+                let mut c = case.clone();
+                c.scripts.remove(i);
+                out.push(c);
+            }
+        }
+        for i in 0..case.scripts.len() {
+            for j in (0..case.scripts[i].len()).rev() {
+                if case.scripts[i].len() > 1 {
+                    let mut c = case.clone();
+                    c.scripts[i].remove(j);
+                    out.push(c);
+                }
+            }
+        }
+        out
+    }
+}
